@@ -68,6 +68,23 @@ type wkResult struct {
 	inconcl     string
 }
 
+// wkFlushRetry writes msg and flushes it; a Flush that gives up with ErrQueueFull (tiny queues: 10 retries of 10 ms) has
+// dropped the bytes, so they are written again — an echo protocol must not lose a message because the queue was busy.
+func wkFlushRetry(st *Stream, msg []byte, errs *int64) bool {
+	for try := 0; try < 200; try++ {
+		st.BufferWriter().WriteBytes(msg)
+		err := st.Flush(false)
+		if err == nil {
+			return true
+		}
+		atomic.AddInt64(errs, 1)
+		if err != ErrQueueFull {
+			return false
+		}
+	}
+	return false
+}
+
 func wkStranded(s *Session) (bool, int64) {
 	// the fence lambda ran on the event loop, so the consumer is not inside handlePolling; with no producer running and
 	// no notification in flight nothing will ever pop what is still queued, whatever the working flag says
@@ -152,9 +169,8 @@ func runWakeupCase(c *checkCtx, cs wkCase) (res wkResult) {
 			return
 		}
 		// first message makes the server create the stream
-		cl.BufferWriter().WriteBytes(make([]byte, cs.MsgSize))
-		if err := cl.Flush(false); err != nil {
-			res.inconcl = "first flush: " + err.Error()
+		if !wkFlushRetry(cl, make([]byte, cs.MsgSize), &res.flushErrors) {
+			res.inconcl = "first flush failed"
 			return
 		}
 		sv := p.serverStream(cl.StreamID(), 5*time.Second)
@@ -174,10 +190,10 @@ func runWakeupCase(c *checkCtx, cs wkCase) (res wkResult) {
 				if err != nil {
 					return
 				}
-				sv.BufferWriter().WriteBytes(buf)
+				msg := append([]byte(nil), buf...)
 				sv.BufferReader().ReleasePreviousRead()
-				if err := sv.Flush(false); err != nil {
-					atomic.AddInt64(&res.flushErrors, 1)
+				if !wkFlushRetry(sv, msg, &res.flushErrors) {
+					return
 				}
 			}
 		}(sv)
@@ -215,9 +231,7 @@ func runWakeupCase(c *checkCtx, cs wkCase) (res wkResult) {
 				msg := make([]byte, cs.MsgSize)
 				for m := 0; m < cs.BurstLen && atomic.LoadUint32(&abort) == 0; m++ {
 					e := streams[lo+wr.Intn(hi-lo)]
-					e.cl.BufferWriter().WriteBytes(msg)
-					if err := e.cl.Flush(false); err != nil {
-						atomic.AddInt64(&res.flushErrors, 1)
+					if !wkFlushRetry(e.cl, msg, &res.flushErrors) {
 						continue
 					}
 					t0 := time.Now()
@@ -417,9 +431,12 @@ func wkPeerChild(args []string) {
 					if err != nil {
 						return
 					}
-					sv.BufferWriter().WriteBytes(buf)
+					msg := append([]byte(nil), buf...)
 					sv.BufferReader().ReleasePreviousRead()
-					_ = sv.Flush(false)
+					var n int64
+					if !wkFlushRetry(sv, msg, &n) {
+						return
+					}
 				}
 			}(st)
 		}
@@ -585,9 +602,7 @@ func runWakeupCaseXProc(c *checkCtx, cs wkCase) (res wkResult) {
 				msg := make([]byte, cs.MsgSize)
 				for m := 0; m < cs.BurstLen && atomic.LoadUint32(&abort) == 0; m++ {
 					st := streams[lo+wr.Intn(hi-lo)]
-					st.BufferWriter().WriteBytes(msg)
-					if err := st.Flush(false); err != nil {
-						atomic.AddInt64(&res.flushErrors, 1)
+					if !wkFlushRetry(st, msg, &res.flushErrors) {
 						continue
 					}
 					st.SetReadDeadline(time.Now().Add(5 * time.Second))
